@@ -7,6 +7,7 @@ command line, in all four output formats. Observed: the syscall log, byte+mtime+
 before and after, the exit status, stdout. Judged against a model that is computed from the tree
 with the library reference (`sv libfmt`), never from the generator's intentions.
 """
+import posixpath
 import json
 import re
 
@@ -108,7 +109,7 @@ def dir_case(lf, fmt, threads, variant, check=True):
     return ftree.make_case(files, opts, targets, {ftree.MARKER_ENV: ftree.MARKER}, None, tag=f"dir:{variant % 4}")
 
 
-NAMES = ["main", "util", "init", "mod", "foo", "bar", "conf", "test_x", "Lib", "sp ace", "ünï", "a-b", "x.y", "skip_me", "z9"]
+NAMES = ["main", "util", "init", "mod", "foo", "bar", "conf", "test_x", "Lib", "sp ace", "ünï", "a-b", "x.y", "skip_me", "z9", "back\\slash", "q'uote"]
 DIRS = ["src", "lib", "pkg", "deep", "vendor", "x.lua", "t e", "core"]
 
 
@@ -169,6 +170,14 @@ def random_case(rng, lf, tier, check=True):
             files[rel] = ftree.text_for(lf, cfg_, rng.pick(["U", "U", "P", "F"]), i, rng.below(50))
             continue
         rel = (d + "/" if d else "") + base + rng.pick([".lua", ".lua", ".luau"])
+        twins = [r for r in files if isinstance(files[r], (str, bytes)) and r.endswith((".lua", ".luau")) and posixpath.dirname(r) == d and posixpath.basename(r).swapcase() != posixpath.basename(r)]
+        if twins and rng.chance(1, 8):
+            # a second file whose name differs from an existing one only in letter case
+            t = rng.pick(twins)
+            stem, ext = posixpath.splitext(posixpath.basename(t))
+            rel = (d + "/" if d else "") + stem.swapcase() + ext
+            if rel in files:
+                continue
         if c == "L":
             files[rel] = {"symlink": "nowhere" + str(i)}
             continue
@@ -243,6 +252,15 @@ def pinned_cases(lf, tier):
     for v, fmt in enumerate(FORMATS):
         for t in THREADS:
             cases.append(dir_case(lf, fmt, t, v + (4 if t == 2 else 0)))
+    # names that differ only in letter case are different files (and odd characters are just characters)
+    for v, fmt in enumerate(FORMATS):
+        for pair, order in ((("F", "U"), 0), (("F", "P"), 1), (("U", "F"), 2), (("P", "U"), 3)):
+            opts = {"check": True, "format": fmt, "verify": False, "sort": False, "threads": THREADS[(v + order) % 3]}
+            cfg_ = ftree.config_for(opts)
+            names = [("Util.lua", "util.lua"), ("Lib/mod.lua", "lib/mod.lua"), ("d/Back\\slash.lua", "d/back\\slash.lua"), ("A B.lua", "a b.lua")][(v + order) % 4]
+            files = {names[0]: ftree.text_for(lf, cfg_, pair[0], 700 + v, order), names[1]: ftree.text_for(lf, cfg_, pair[1], 710 + v, order + 1)}
+            targets = [list(names), [names[1], names[0]], ["."], ["./" + names[0], names[1]]][order]
+            cases.append(ftree.make_case(files, opts, targets, {}, None, tag=f"case-twins:{pair[0]}{pair[1]}:{order}"))
     if tier == "thorough":
         for a in SEQ_CLASSES:
             for b in SEQ_CLASSES:
@@ -503,7 +521,7 @@ def run(tier, seed):
     try:
         cases = pinned_cases(lf, tier)
         rng = clilib.Rng(seed * 1000003 + 13)
-        for _ in range(110 if tier == "quick" else 4000):
+        for _ in range(500 if tier == "quick" else 6000):
             cases.append(random_case(rng, lf, tier, check=True))
         tally = Tally(PROP, lf, judge, exec13)
         ftree.run_all(cases, exec13, tally.on_result)
